@@ -76,6 +76,10 @@ pub struct Scn {
     /// fdt_again_after_jump: no cleanup() between the clock jump and the second delivery of the instance
     #[serde(default)]
     pub again_without_cleanup: bool,
+    /// fdt_again_after_jump: the second copy of the instance arrives AFTER the packets of the object (which is waiting
+    /// for an FDT if the first copy has expired by then), not before them
+    #[serde(default)]
+    pub again_after_object: bool,
 }
 
 /// The datagram as it is delivered: flute's own, or with EXT_TIME re-encoded as SCT-High only.
@@ -159,6 +163,7 @@ pub fn gen(rng: &mut Rng, _tier: Tier) -> Scn {
         fdt_again_after_jump: rng.chance(0.5),
         receive_once_off: rng.chance(0.25),
         again_without_cleanup: rng.chance(0.5),
+        again_after_object: rng.chance(0.4),
     }
 }
 
@@ -198,7 +203,7 @@ fn receive_with_offset(scn: &Scn, ctx: &Ctx, sess: &Session, offset_s: i64, t_f:
     for (t, _, p) in dl {
         let jump = if scn.jump_s != 0 && t >= second_phase && t_f != t_o { scn.jump_s } else { 0 };
         rr.offset_us = (offset_s + jump) * 1_000_000;
-        if again && !redelivered && t >= second_phase {
+        if again && !scn.again_after_object && !redelivered && t >= second_phase {
             // the clock has jumped: housekeeping, then the carousel repetition of the instance, then the object
             redelivered = true;
             if !scn.again_without_cleanup {
@@ -214,6 +219,18 @@ fn receive_with_offset(scn: &Scn, ctx: &Ctx, sess: &Session, offset_s: i64, t_f:
             rr.push(&ep, &wire::encode(&b), t);
         } else {
             rr.push(&ep, &on_wire(scn, p), t);
+        }
+    }
+    if again && scn.again_after_object {
+        // the carousel repetition of the instance arrives once the object's packets are in
+        let t = second_phase;
+        let jump = if scn.jump_s != 0 && t_f != t_o { scn.jump_s } else { 0 };
+        rr.offset_us = (offset_s + jump) * 1_000_000;
+        if !scn.again_without_cleanup {
+            rr.cleanup(t);
+        }
+        for f in &fdt_pkts {
+            rr.push(&ep, &on_wire(scn, f), t);
         }
     }
     let r = completes_exact(&monitor, &sess.objs[0]);
@@ -531,7 +548,15 @@ pub fn run(scn: &Scn, ctx: &Ctx, scratch: &Path) {
         let mut allowed = !scn.check || (est_at_attach <= expires_us as i128 && est_at_reception <= expires_us as i128);
         if fdt_again(scn, t_f, t_o, lost.is_some()) {
             ctx.borrow_mut().count_fault("fdt-redelivered-after-clock-jump");
-            if !scn.again_without_cleanup {
+            if scn.again_after_object {
+                // the copy that follows the object's packets: a first copy judged expired leaves no expectation, a first
+                // copy received valid leaves the usual one (first reception and attach instant)
+                if scn.check && est_at_reception > expires_us as i128 {
+                    ctx.borrow_mut().note("relax:second-copy-after-the-object");
+                    let _ = receive_with_offset(scn, ctx, &sess, *off, t_f, lost);
+                    continue;
+                }
+            } else if !scn.again_without_cleanup {
                 // the instance arrives a second time right before the object, on the jumped clock: that reception counts
                 margin = (est_at_attach - expires_us as i128).abs();
                 allowed = !scn.check || est_at_attach <= expires_us as i128;
@@ -664,6 +689,7 @@ impl Prop for C19 {
         push(&|n| n.time_ext_without_sct = 0);
         push(&|n| n.fdt_again_after_jump = false);
         push(&|n| n.receive_once_off = false);
+        push(&|n| n.again_after_object = false);
         push(&|n| n.many_instances = if n.many_instances > 11 { 11 } else { n.many_instances });
         push(&|n| n.id_wrap = false);
         push(&|n| n.a_before_newer = false);
